@@ -48,7 +48,7 @@ class RScreen:
         return out
 
 
-def random_rscreen(rnd, n, nsamp, nplates, p_obs=0.3, single=0.25, one_sample_per_plate=False):
+def random_rscreen(rnd, n, nsamp, nplates, p_obs=0.3, single=0.25, one_sample_per_plate=False, arity=2):
     pobs = [rnd.random() < p_obs for _ in range(nplates)]
     psamp = [rnd.randrange(nsamp) for _ in range(nplates)]
     rows = []
@@ -62,6 +62,10 @@ def random_rscreen(rnd, n, nsamp, nplates, p_obs=0.3, single=0.25, one_sample_pe
             t = (0, 0)
         else:
             t = (rnd.randint(1, 4), rnd.randint(1, 4))
+        if arity == 1:
+            t = t[:1]
+        elif arity > 2:
+            t = t + tuple(rnd.choice([0, 0, rnd.randint(1, 4)]) for _ in range(arity - 2))
         rows.append((s, t, p, pobs[p]))
     return RScreen(rows)
 
@@ -123,7 +127,7 @@ def make_cases(ctx, rnd, tlc_inputs):
                 cases.append(("npl", rs, (p,)))
     n_rand = 14 if ctx.quick else 120
     for _ in range(n_rand):
-        big = random_rscreen(rnd, rnd.randint(2, 14), rnd.randint(1, 4), rnd.randint(1, 5))
+        big = random_rscreen(rnd, rnd.randint(2, 14), rnd.randint(1, 4), rnd.randint(1, 5), arity=rnd.choice([2, 2, 2, 3, 1]))
         ssp = random_rscreen(rnd, rnd.randint(2, 14), rnd.randint(1, 4), rnd.randint(1, 6), one_sample_per_plate=True, single=0.1)
         nocombo = random_rscreen(rnd, rnd.randint(2, 10), rnd.randint(1, 3), rnd.randint(1, 3), single=0.0)
         cases += [("seg", big, (rnd.randint(1, 5),)), ("pair", nocombo, (rnd.randint(1, 2), rnd.randint(0, 2))), ("pair", big, (1, 0)),
